@@ -88,6 +88,24 @@ LEVELS = {
                 "  .       ",
                 "          ",
                 "    $     "],
+    # a box in line with a box that already stands ON a target: the push must be refused (box-box contact where the
+    # second box is encoded as box-on-target), horizontally and vertically
+    "box_on_target_h": [W, W,
+                        "##      ##",
+                        "## @$*  ##",
+                        "##      ##",
+                        "##  $ . ##",
+                        "##  $ . ##",
+                        "##    . ##",
+                        W, W],
+    "box_on_target_v": [W, W,
+                        "##  @   ##",
+                        "##  $   ##",
+                        "##  * $.##",
+                        "##    $.##",
+                        "##     .##",
+                        "##      ##",
+                        W, W],
     # one-cell cell: every action is blocked (walls left and right, a box with a wall behind it above,
     # a box with another box behind it below).
     "island": [W,
@@ -230,6 +248,8 @@ class Adapter(EnvAdapter):
                 _c("rooms_dense_t3", "levels", "dense", 3, ROOMS, episodes=10, max_steps=6, policies=ALL_POL),
                 _c("island_dense_t3", "levels", "dense", 3, ("island",), episodes=2, max_steps=6, policies=["random"]),
                 _c("open_dense_t7", "levels", "dense", 7, ("open_top", "open_left", "open_br"), episodes=12, max_steps=10,
+                   policies=ALL_POL),
+                _c("boxontarget_sparse_t7", "levels", "sparse", 7, ("box_on_target_h", "box_on_target_v"), episodes=8, max_steps=10,
                    policies=ALL_POL),
             ]
         out = []
